@@ -123,3 +123,65 @@ def small_curves(pmax, deg2_ps=(), odd_only=True):
                     if n >= 3:
                         break
     return out
+
+
+# ---------------------------------------------------------------- adversarially related operands
+M61 = (1 << 61) - 1          # CPython hashes ints modulo this prime: n and n + k*M61 are distinct ints with equal hash()
+
+
+def cube_root_of_unity(p):
+    """A primitive cube root of unity in GF(p) (p = 1 mod 3 for all curves here)."""
+    g = 2
+    while True:
+        b = pow(g, (p - 1) // 3, p)
+        if b != 1:
+            return b
+        g += 1
+
+
+def endo(F, Pt, times=1):
+    """(x, y) -> (beta^times * x, y): another point of the same j = 0 curve with the SAME y (and the same order)."""
+    if Pt is None:
+        return None
+    b = pow(cube_root_of_unity(F.p), times, F.p)
+    return (tuple(c * b % F.p for c in Pt[0]), Pt[1])
+
+
+def sparse_scales(F, Pt, shift=None):
+    """Projective scale factors that make some coefficient of a coordinate vanish (for extension fields), or that are
+    special in the base field: conj-like factors (X or Y becomes 'real'), purely real / purely imaginary z, and z with a
+    vanishing constant term after the twist's change of basis (z0 = shift * z1)."""
+    p = F.p
+    out = []
+    if F.k == 1:
+        for s in (2, p - 1, (p + 1) // 2, M61 % p or 3):
+            out.append((s % p,))
+        return out
+    if F.k != 2:
+        return out
+    one = F.one
+    for c in (1, 7):
+        out += [(c, 0), (0, c), (c, c), ((-c) % p, c)]
+        if shift:
+            out.append((shift * c % p, c))             # constant term of the twisted z vanishes
+            out.append((c, shift * c % p))
+    if Pt is not None:
+        for coord in Pt:
+            conj = (coord[0], (-coord[1]) % p)
+            if any(conj):
+                out.append(conj)                         # coord * conj = norm: imaginary part 0
+                out.append(F.mul(conj, (0, 1)))          # ... real part 0
+    return [s for s in out if any(s)]
+
+
+def same_xy_other_z(E, X, Y, rng=None):
+    """Roots Z of  b*Z^3 - Y^2*Z + X^3 = 0  over GF(p) (prime field, a = 0): every root gives a projective triple (X, Y, Z)
+    on y^2 z = x^3 + b z^3.  For a triple (X, Y, Z1) of the curve, Z1 is a root; the others (if any) are DIFFERENT points that
+    share the raw X and Y."""
+    from ..model.gf import poly_roots_fp
+    F = E.F
+    if F.k != 1:
+        return []
+    p = F.p
+    b = E.b[0]
+    return poly_roots_fp([pow(X, 3, p), (-Y * Y) % p, 0, b % p], p, rng)
